@@ -107,6 +107,8 @@ def _template_constraint(labels):
         "as_ge": st.booleans(),
         "log_trick": st.booleans(),
         "delta": st.sampled_from([0.5, 1, 5]),
+        # the same polynomial with its terms inserted in the opposite order (dict order is not part of a polynomial)
+        "rev": st.booleans(),
     })
 
 
@@ -179,6 +181,7 @@ def pipeline_specs():
                     con, min_size=(1, 2, 2, 2, 3, 3)[k], max_size=(1, 2, 2, 2, 3, 3)[k])),
                 "weak": gen.pick((None, 2), (0.125, 1), (0.5, 1)),
                 "early_export": gen.pick((False, 2), (True, 1)),
+                "mag": gen.pick((0, 5), (-30, 1), (30, 1)),
             }).map(_place_witness)
         return st.builds(lambda p, n: list(p[:n]), st.sampled_from(POOLS),
                          gen.pick((4, 3), (3, 2), (2, 1))).flatmap(for_labels)
@@ -268,6 +271,8 @@ def _plan_constraint(c, labels, wbits, spin):
         rel = "le"
         if c["as_ge"]:
             P, rel = {k: -v for k, v in P.items()}, "ge"
+        if c.get("rev"):
+            P = dict(reversed(list(P.items())))
         Pf = dict(P)
 
         def pred(a, Pf=Pf, rel=rel):
@@ -330,12 +335,18 @@ def _run(spec, rec, qv):
     wbits = list(spec["witness"])
     classes = {kind}
 
+    # the whole problem scaled by a power of two (objective and weights alike; exact): tiny or huge overall magnitudes
+    mag = spec.get("mag") or 0
+    sc = 2.0 ** mag if mag else 1
+    if mag:
+        classes.add("magnitude=2^%d" % mag)
+        spec = dict(spec, objective=[[k, v * sc] for k, v in spec["objective"]])
     # reference: objective table over the user labels (exact python arithmetic)
     f = gen.terms_dict([[tuple(k), v] for k, v in spec["objective"]])
     rows = [ref.assignment(labels, r, spin) for r in range(1 << n)]
     ftab = [ref.ref_value(f, a) for a in rows]
     frange = max(ftab) - min(ftab)
-    fscale = sum(abs(v) for v in f.values()) + 1.0
+    fscale = sum(abs(v) for v in f.values()) + 1.0 * sc
 
     H = lib(gen.build, qv, kind, spec["objective"], what="build")
     preds, descr, anc_flags, clabels = [], [], [], set()
@@ -349,7 +360,7 @@ def _run(spec, rec, qv):
             classes.add("intermediate_export")
         name, args, kw, pred, d, cl = _plan_constraint(c, labels, wbits, spin)
         clabels |= cl
-        lam = frange + c["delta"]
+        lam = frange + c["delta"] * sc
         before = H.num_ancillas
         lib(getattr(H, name), *args, what=name, lam=lam, **kw)
         anc_flags.append(H.num_ancillas > before)
@@ -439,6 +450,11 @@ def _run(spec, rec, qv):
         tab = ref.table(terms, order, form_spin)
         scale = sum(abs(v) for v in terms.values()) + fscale
         tol = 1e-9 * scale
+        if mag:
+            # scaled pipelines: the reduction penalties (1 + |v|, not scaled) dwarf the objective, so a tolerance relative
+            # to the coefficient mass would call near-optimal rows optimal; what is needed is only room for the rounding
+            # of the table sums (<= a few hundred terms of size <= scale), far below the objective's granularity 2^(mag-3)
+            tol = max(1e-9 * fscale, 1024 * 2.220446049250313e-16 * scale)
         mn = float(tab.min())
         if abs(mn - fstar) > tol:
             raise Violation("minimum_differs/%s" % what,
@@ -497,7 +513,7 @@ def _run(spec, rec, qv):
         H2 = lib(gen.build, qv, kind, spec["objective"], what="build")
         for c in spec["constraints"]:
             name, args, kw, _, _, _ = _plan_constraint(c, labels, wbits, spin)
-            lib(getattr(H2, name), *args, what=name, lam=weak, **kw)
+            lib(getattr(H2, name), *args, what=name, lam=weak * sc, **kw)
         if not set(ref.labels_of(dict(H2))) >= set(ref.labels_of(dict(H))):
             # a weak penalty cancelled a term of the objective exactly and the weak model lost a variable
             # the constraints depend on: its solutions cannot say anything about that variable
